@@ -597,7 +597,7 @@ def _make_rrsig_signature_data(
     wire = rrsig.to_wire(origin=signer)
     assert wire is not None  # for mypy
     data += wire[:18]
-    data += rrsig.signer.to_digestable(signer)
+    data += signer.to_digestable()
 
     # Derelativize the name before considering labels.
     if not rrname.is_absolute():
